@@ -107,7 +107,58 @@ func c08Generate(rng *rand.Rand, withStrings bool) c08Prog {
 	}
 	steps := 4 + rng.IntN(18)
 	for s := 0; s < steps && !oob; s++ {
-		switch op := rng.IntN(12); {
+		switch op := rng.IntN(14); {
+		case op >= 12: // one branch assigns the array a new literal (shorter or longer), the sibling
+			// branch (or a later match arm) indexes it with a compile-time-known index that is valid for
+			// the length the array really has there; afterwards the array is indexed again
+			selv := int64(rng.IntN(2))
+			tn++
+			sn := fmt.Sprintf("s%d", tn)
+			main = append(main, &gen.Let{Name: sn, T: I32, Init: &gen.Call{Fn: idf, Args: []gen.Expr{lit(I32, selv)}}, Annot: true})
+			sv := &gen.Var{Name: sn, T: I32}
+			newLen := 1 + rng.IntN(3)
+			if rng.IntN(2) == 0 {
+				newLen = length + 1 + rng.IntN(3)
+			}
+			nl := &gen.ArrLit{T: dt}
+			for q := 0; q < newLen; q++ {
+				nl.Elems = append(nl.Elems, lit(et, int64(rng.IntN(90))))
+			}
+			assign := []gen.Stmt{&gen.Assign{LHS: d, Op: "=", RHS: nl}}
+			var read []gen.Stmt
+			if length > 0 {
+				k := int64(rng.IntN(length))
+				if rng.IntN(2) == 0 {
+					k = int64(length - 1) // the position most likely to lie beyond a shorter literal
+				}
+				if rng.IntN(3) == 0 {
+					k -= int64(length)
+				}
+				tn++
+				name := fmt.Sprintf("t%d", tn)
+				read = []gen.Stmt{&gen.Let{Name: name, T: et, Init: &gen.Index{X: d, I: lit(I32, k), T: et}, Annot: true}, &gen.Print{X: &gen.Var{Name: name, T: et}}}
+			} else {
+				read = []gen.Stmt{&gen.Print{X: sv}}
+			}
+			cond := &gen.Bin{Op: "==", L: sv, R: lit(I32, 0), T: gen.TBool}
+			assignTaken := false
+			switch rng.IntN(3) {
+			case 0:
+				main = append(main, &gen.If{Cond: cond, Then: assign, Else: read})
+				assignTaken = selv == 0
+			case 1:
+				main = append(main, &gen.If{Cond: cond, Then: read, Else: assign})
+				assignTaken = selv != 0
+			default:
+				main = append(main, &gen.Match{Subj: sv, HasDef: true, Arms: []gen.MatchArm{{Pat: lit(I32, 0), Body: assign}}, Default: read})
+				assignTaken = selv == 0
+			}
+			if assignTaken {
+				length = newLen
+			}
+			tn++
+			ln := fmt.Sprintf("n%d", tn)
+			main = append(main, &gen.Let{Name: ln, T: I32, Init: &gen.Len{X: d}, Annot: true}, &gen.Print{X: &gen.Var{Name: ln, T: I32}})
 		case op >= 10: // appends inside a loop; positions that exist only after some iterations are
 			// read behind a length guard, earlier in the loop body than the append (or in the
 			// loop condition), through compile-time-known and opaque indices
@@ -384,7 +435,7 @@ func btoi(b bool) int {
 
 func checkC08(c *Ctx) error {
 	r := c.R
-	r.Rule = "directed: every boundary value of every index type i8..u64 (and values around 2^31 / 2^32 that alias a valid position after truncation) as an opaque index reading / writing a dynamic array and indexing a string (native); every fourth generated program: an array of arrays with rows of different lengths (some longer than the number of rows) and a struct holding a dynamic array, read / written / measured through literal, let-bound and opaque indices on both levels; the others: histories over one dynamic array (literal of 0-5 elements, appends crossing the growth thresholds, element widths 1-8 bytes, get/set/len, final iteration) and one string, with indices that are literals, let-bound constants or returned by an opaque function, of every integer type i8..u64 that can hold the value, drawn from {-len-1,-len,-1,0,len-1,len,len+1,+-2^20, +-2^32 (+ a valid index), 2^32-1, 2^31, +-2^62} or valid for the current length; compiled for native and wasm and compared with the reference list/string model including the panic point and the lines printed before it (stdout is a file). A compile-time rejection is accepted only if the reference panics at a compile-time-known index. non-trivial = a distinct history whose verdict was decided on at least one target"
+	r.Rule = "directed: every boundary value of every index type i8..u64 (and values around 2^31 / 2^32 that alias a valid position after truncation) as an opaque index reading / writing a dynamic array and indexing a string (native); every fourth generated program: an array of arrays with rows of different lengths (some longer than the number of rows) and a struct holding a dynamic array, read / written / measured through literal, let-bound and opaque indices on both levels; the others: histories over one dynamic array (literal of 0-5 elements, appends crossing the growth thresholds, element widths 1-8 bytes, get/set/len, whole-array reassignment in one branch with a constant-index read in the sibling branch or a later match arm, final iteration) and one string, with indices that are literals, let-bound constants or returned by an opaque function, of every integer type i8..u64 that can hold the value, drawn from {-len-1,-len,-1,0,len-1,len,len+1,+-2^20, +-2^32 (+ a valid index), 2^32-1, 2^31, +-2^62} or valid for the current length; compiled for native and wasm and compared with the reference list/string model including the panic point and the lines printed before it (stdout is a file). A compile-time rejection is accepted only if the reference panics at a compile-time-known index. non-trivial = a distinct history whose verdict was decided on at least one target"
 	r.Assumptions = []string{"the panic message must contain 'index out of bounds'", "string indexing prints the byte as a character"}
 	n := c.N(64, 1600)
 	runProbes(c, "C08", core.Native)
